@@ -9,6 +9,7 @@ import PyPhysim.Proofs.C04Rank
 import PyPhysim.Proofs.C04Examples
 import PyPhysim.Proofs.C04ObjLimit
 import PyPhysim.Proofs.C04Close
+import PyPhysim.Proofs.C04GmdFromSvd
 
 /-!
 # C04 — MIMO schemes recover data over any full-rank channel within the power budget
@@ -26,7 +27,13 @@ the harness runs):
 * `(U, S, _)`, `(_, _, VH)` = results of the two `np.linalg.svd` calls of `SVDMimo`:
   `U · diag S · VH = H`, `Uᴴ U = 1`, `VH · VHᴴ = 1`;
 * `(Q, R, _)`, `(_, _, P)` = results of the two `gmd` calls of `GMDMimo`:
-  `Q · R · Pᴴ = H`, `Pᴴ P = 1`.
+  `Q · R · Pᴴ = H`, `Pᴴ P = 1` — a hypothesis of the *contract-conditional* theorems
+  `gmd_roundtrip`, `encode_energy_gmd` (they hold for ANY routine with that contract).
+  `util.misc.gmd` is pyphysim's own code, and its sweep is no longer only a contract: the
+  `…_from_svd` theorems (section "GMD MIMO from the SVD contract alone") take the results of
+  the executable model of the sweep (`PyPhysim.LinAlg.gmd`, `Model/C20Gmd.lean`, proved correct
+  in `Proofs/C20GmdInv*.lean`) and assume only the contract of the full `np.linalg.svd`
+  (`IsFullSvd`: `U Σ V_H = H`, unitary factors, positive non-increasing singular values).
 
 `FullColRank H` is `IsUnit (Hᴴ H)`.
 -/
@@ -170,10 +177,11 @@ theorem svd_roundtrip (H : Mat ℂ Nr Nt) (hr : FullColRank H) (U : Mat ℂ Nr N
   rw [key]
   exact Pf.flattenC_reshapeC Nt x h j hj hj'
 
-/-- **GMD MIMO with ZF.**  `P` comes from the `gmd` call in `_calc_precoder`, `(Q, R)`
-    from the one in `_calc_receive_filter`; `Gp` is what `pinv` returns for the equivalent
-    channel `Q·R` the code hands to it.  Under the `gmd` contract (`Q R Pᴴ = H`, `Pᴴ P = 1`)
-    every block `encode` accepts is recovered. -/
+/-- **GMD MIMO with ZF** (CONTRACT-CONDITIONAL form: `gmd` may be any routine with the stated
+    contract; for the `gmd` that exists see `gmd_roundtrip_from_svd`).  `P` comes from the `gmd`
+    call in `_calc_precoder`, `(Q, R)` from the one in `_calc_receive_filter`; `Gp` is what `pinv`
+    returns for the equivalent channel `Q·R` the code hands to it.  Under the `gmd` contract
+    (`Q R Pᴴ = H`, `Pᴴ P = 1`) every block `encode` accepts is recovered. -/
 theorem gmd_roundtrip (H : Mat ℂ Nr Nt) (hr : FullColRank H) (Q : Mat ℂ Nr Nr) (R : Mat ℂ Nr Nt)
     (P : Mat ℂ Nt Nt) (hf : matMul (matMul Q R) (cT P) = H) (hP : matMul (cT P) P = eye)
     (Gp Ws : Mat ℂ Nt Nr) (hp : IsPinv (gmdChannelEq Q R) Gp) (nv : ℂ) (hnv : ¬ 0 < nv.re)
@@ -295,7 +303,8 @@ theorem encode_energy_svd (VH : Mat ℂ Nt Nt) (hV : matMul VH (cT VH) = eye) (x
     rw [Pf.totalEnergy_div E _ hcol, Pf.totalEnergy_reshapeC]
   exact ⟨⟨h, hcol⟩, htot, fun hn => Pf.avg_of_total hNt h hn _ _ htot⟩
 
-/-- **Energy, GMD MIMO.**  The same, for every `gmd` result `P` with `Pᴴ P = 1`. -/
+/-- **Energy, GMD MIMO** (CONTRACT-CONDITIONAL form; for the `gmd` that exists see
+    `gmd_encode_energy_from_svd`).  The same, for every `gmd` result `P` with `Pᴴ P = 1`. -/
 theorem encode_energy_gmd (P : Mat ℂ Nt Nt) (hP : matMul (cT P) P = eye) (x : Vec ℂ n)
     (E : Mat ℂ Nt (n / Nt)) (hE : precodeC (gmdPrecoder P) x = .ok E) :
     (∃ h : n % Nt = 0, ∀ j, colEnergy E j = colEnergy (reshapeC Nt x h) j / (Nt : ℂ)) ∧
@@ -393,8 +402,9 @@ theorem blast_encode_is_precoding (x : Vec ℂ n) (E : Mat ℂ Nt (n / Nt)) (hE 
   apply toM_inj
   rw [hEm, toM_matMul, Pf.toM_blastPrecoder, Matrix.smul_mul, Matrix.one_mul]
 
-/-- **One Givens step of `gmd`** (partial result about the kernel the GMD scheme relies
-    on; the whole sweep is a numerically checked contract, see `Proofs/C04Gmd.lean`): for
+/-- **One Givens step of `gmd`** (the 2×2 algebra on its own; the WHOLE sweep — permutation
+    bookkeeping, existence of a straddling partner, array bounds — is proved for the executable
+    model, see `gmd_contract_from_svd` below and `Properties/C20.lean: gmd_correct_complex`): for
     `δ2 ≤ σ̄ ≤ δ1`, `δ2 < δ1` the rotations the code builds are orthogonal and map
     `diag(δ1, δ2)` to `[[σ̄, x], [0, y]]` with the stored `x = s c (δ2² − δ1²)/σ̄`,
     `y = δ1 δ2 / σ̄`. -/
@@ -409,6 +419,93 @@ theorem gmd_step_preserves (d1 d2 sb : ℝ) (h2 : 0 ≤ d2) (h12 : d2 < d1) (hlo
   intro c s
   obtain ⟨hc, hs⟩ := Pf.gmd_cs d1 d2 sb h2 h12 hlo hhi
   exact Pf.gmd_step d1 d2 sb c s hsb hc hs
+
+/-! ## GMD MIMO from the SVD contract alone
+
+`GMDMimo` runs `gmd(*np.linalg.svd(channel))` — once in `_calc_precoder` (keeps `P`), once in
+`_calc_receive_filter` (keeps `Q`, `R`); the real code therefore calls numpy's SVD TWICE on the same
+array.  `np.linalg.svd` is a deterministic function of the array contents, so both calls return
+the same triple `(U, S, V_H)` (the harness checks this on every case: contract `gmd-two-calls`),
+and `gmd` is a function of that triple: below ONE triple and ONE result `gmdCall U S V_H σ̄` of the
+executable model of the sweep stand for both calls.  (Two *different* valid SVDs of one channel
+would in general not fit together: `Q₂ R₂ P₁ᴴ ≠ H`.)
+
+What is assumed: the contract `IsFullSvd` of LAPACK's SVD and, in the round trip, the contract of
+`pinv`.  What is no longer assumed: anything about `gmd`. -/
+
+/-- **The `gmd` contract is a theorem (central lemma).**  For every channel with a full SVD
+    `U Σ V_H = H` (unitary `U`, `V_H`, positive non-increasing singular values) and every `σ̄ > 0`
+    with `σ̄^p = ∏ S`, `p = min(Nr, Nt) ≥ 1`, the model of the code's `gmd(U, S, V_H)` raises
+    nothing and returns `(Q, R, P)` with `Q R Pᴴ = H`, `Pᴴ P = 1`, `Qᴴ Q = 1`, `R` upper triangular
+    with the constant diagonal `σ̄` — exactly what `gmd_roundtrip` / `encode_energy_gmd` take as a
+    hypothesis, plus the two clauses that make it a geometric-mean decomposition. -/
+theorem gmd_contract_from_svd (H : Mat ℂ Nr Nt) (U : Mat ℂ Nr Nr) (S : Fin (min Nr Nt) → ℝ)
+    (VH : Mat ℂ Nt Nt) (hsvd : IsFullSvd H U S VH) (hp : 0 < min Nr Nt) (sb : ℝ) (hsb : 0 < sb)
+    (hprod : sb ^ (min Nr Nt) = ∏ i, S i) :
+    ∃ Q R P, gmdCall U S VH sb = .ok (Q, R, P) ∧ IsGmd H sb Q R P :=
+  Pf.gmd_contract_of_svd H U S VH hsvd hp sb hsb hprod
+
+/-- … in particular for the `σ̄ = exp(mean(log S))` the code computes (read over the reals) -/
+theorem gmd_contract_from_svd_code_sigma_bar (H : Mat ℂ Nr Nt) (U : Mat ℂ Nr Nr)
+    (S : Fin (min Nr Nt) → ℝ) (VH : Mat ℂ Nt Nt) (hsvd : IsFullSvd H U S VH) (hp : 0 < min Nr Nt) :
+    ∃ Q R P, gmdCall U S VH (gmdSigmaBar S) = .ok (Q, R, P) ∧ IsGmd H (gmdSigmaBar S) Q R P :=
+  Pf.gmd_contract_of_svd H U S VH hsvd hp _ (Pf.gmdSigmaBar_spec S hp hsvd.pos).1
+    (Pf.gmdSigmaBar_spec S hp hsvd.pos).2
+
+/-- **Positive singular values are full column rank** (`Nt ≤ Nr`; conversely full column rank
+    forces `Nt ≤ Nr`): the hypothesis `FullColRank H` of the contract-conditional theorems is part
+    of the SVD contract. -/
+theorem fullColRank_from_svd (H : Mat ℂ Nr Nt) (U : Mat ℂ Nr Nr) (S : Fin (min Nr Nt) → ℝ)
+    (VH : Mat ℂ Nt Nt) :
+    (IsFullSvd H U S VH → Nt ≤ Nr → FullColRank H) ∧ (FullColRank H → Nt ≤ Nr) :=
+  ⟨fun hsvd h => Pf.fullColRank_of_svd H U S VH hsvd h, Pf.le_of_fullColRank H⟩
+
+/-- **GMD MIMO with ZF, from the SVD contract alone.**  For every channel with `1 ≤ Nt ≤ Nr` and a
+    full SVD with positive singular values, the sweep succeeds, and with the `P`, `Q`, `R` IT
+    RETURNS (not an assumed decomposition): precoder `P/√Nt`, equivalent channel `Q·R` handed to
+    `pinv`, zero-forcing branch — every block `encode` accepts is recovered from the noise-free
+    channel output, symbol by symbol. -/
+theorem gmd_roundtrip_from_svd (H : Mat ℂ Nr Nt) (U : Mat ℂ Nr Nr) (S : Fin (min Nr Nt) → ℝ)
+    (VH : Mat ℂ Nt Nt) (hsvd : IsFullSvd H U S VH) (hNt0 : 0 < Nt) (hNt : Nt ≤ Nr) :
+    ∃ Q R P, gmdCall U S VH (gmdSigmaBar S) = .ok (Q, R, P) ∧
+      ∀ (Gp Ws : Mat ℂ Nt Nr), IsPinv (gmdChannelEq Q R) Gp → ∀ nv : ℂ, ¬ 0 < nv.re →
+      ∀ (n : Nat) (x : Vec ℂ n) (E : Mat ℂ Nt (n / Nt)), precodeC (gmdPrecoder P) x = .ok E →
+      ∀ (j : Nat) (hj : j < n) (hj' : j < Nt * (n / Nt)),
+        decodeC (blastFilter nv Gp Ws) (matMul H E) ⟨j, hj'⟩ = x ⟨j, hj⟩ := by
+  obtain ⟨Q, R, P, hok, hg⟩ :=
+    gmd_contract_from_svd_code_sigma_bar H U S VH hsvd (Nat.lt_min.mpr ⟨lt_of_lt_of_le hNt0 hNt, hNt0⟩)
+  exact ⟨Q, R, P, hok, fun Gp Ws hp nv hnv n x E hE j hj hj' =>
+    gmd_roundtrip H (Pf.fullColRank_of_svd H U S VH hsvd hNt) Q R P hg.factor hg.p_unitary Gp Ws hp nv hnv
+      x E hE j hj hj'⟩
+
+/-- **Energy, GMD MIMO, from the SVD contract alone** (any shape with `min(Nr, Nt) ≥ 1`): with the
+    `P` the sweep returns, every channel use radiates `1/Nt` of the energy of the `Nt` symbols it
+    carries, the block `1/Nt` of the block's symbol energy, the average per channel use is the mean
+    symbol energy. -/
+theorem gmd_encode_energy_from_svd (H : Mat ℂ Nr Nt) (U : Mat ℂ Nr Nr) (S : Fin (min Nr Nt) → ℝ)
+    (VH : Mat ℂ Nt Nt) (hsvd : IsFullSvd H U S VH) (hp : 0 < min Nr Nt) :
+    ∃ Q R P, gmdCall U S VH (gmdSigmaBar S) = .ok (Q, R, P) ∧
+      ∀ (n : Nat) (x : Vec ℂ n) (E : Mat ℂ Nt (n / Nt)), precodeC (gmdPrecoder P) x = .ok E →
+        (∃ h : n % Nt = 0, ∀ j, colEnergy E j = colEnergy (reshapeC Nt x h) j / (Nt : ℂ)) ∧
+        totalEnergy E = vecEnergy x / (Nt : ℂ) ∧
+        (0 < n → totalEnergy E / ((n / Nt : ℕ) : ℂ) = vecEnergy x / (n : ℂ)) := by
+  obtain ⟨Q, R, P, hok, hg⟩ := gmd_contract_from_svd_code_sigma_bar H U S VH hsvd hp
+  exact ⟨Q, R, P, hok, fun n x E hE => encode_energy_gmd P hg.p_unitary x E hE⟩
+
+/-- **What the GMD post-processing sees.**  With the `Q`, `R`, `P` the sweep returns, the channel
+    between the precoder `P` and the matched rotation `Qᴴ` is `Qᴴ (H P) = R`: upper triangular, every
+    layer with the same gain `σ̄`, the geometric mean of the singular values (`σ̄ > 0`,
+    `σ̄^p = ∏ S`); and the equivalent channel the code hands to `pinv` / `solve` is `Q R = H P`. -/
+theorem gmd_equal_gain_layers_from_svd (H : Mat ℂ Nr Nt) (U : Mat ℂ Nr Nr) (S : Fin (min Nr Nt) → ℝ)
+    (VH : Mat ℂ Nt Nt) (hsvd : IsFullSvd H U S VH) (hp : 0 < min Nr Nt) :
+    ∃ Q R P, gmdCall U S VH (gmdSigmaBar S) = .ok (Q, R, P) ∧
+      matMul (cT Q) (matMul H P) = R ∧ gmdChannelEq Q R = matMul H P ∧
+      (∀ i j, j.val < i.val → R i j = 0) ∧
+      (∀ i j, i.val = j.val → i.val < min Nr Nt → R i j = ((gmdSigmaBar S : ℝ) : ℂ)) ∧
+      0 < gmdSigmaBar S ∧ gmdSigmaBar S ^ (min Nr Nt) = ∏ i, S i := by
+  obtain ⟨Q, R, P, hok, hg⟩ := gmd_contract_from_svd_code_sigma_bar H U S VH hsvd hp
+  exact ⟨Q, R, P, hok, Pf.gmd_triangular H _ Q R P hg, Pf.gmd_channelEq_eq H _ Q R P hg, hg.upper, hg.diag,
+    Pf.gmdSigmaBar_spec S hp hsvd.pos⟩
 
 /-! ## the scheme objects as state machines: no stale derived state
 
@@ -698,6 +795,11 @@ example : FullColRank Ex.H2 ∧ matMul (matMul Ex.U2 (diagM Ex.S2)) Ex.VH2 = Ex.
 /-- the `gmd` contract of `gmd_roundtrip` / `encode_energy_gmd` holds for `[2, 0]ᵀ` -/
 example : matMul (matMul Ex.Q2 Ex.H2) (cT Ex.P2) = Ex.H2 ∧ matMul (cT Ex.P2) Ex.P2 = eye :=
   Ex.gmd_contract
+
+/-- the hypotheses of the `…_from_svd` theorems hold for the channel `diag(4, 1)` with its SVD
+    `1 · diag(4, 1) · 1` (`σ̄ = 2`: the sweep performs a genuine rotation): `IsFullSvd`,
+    `0 < min Nr Nt`, `Nt ≤ Nr` -/
+example : IsFullSvd Ex.H3 eye LinAlg.GmdInv.exS eye ∧ 0 < min 2 2 ∧ 2 ≤ 2 := Ex.fullSvd_contract
 
 /-- a channel vector with a zero tap still satisfies the MRT hypothesis -/
 example : ∃ i, (fun i : Fin 2 => if i.val = 0 then (0 : ℂ) else Complex.I) i ≠ 0 :=
